@@ -51,6 +51,8 @@ type HandlerCtx struct {
 
 // Recorder is the global event log and the home of all online oracles.
 type Recorder struct {
+	// ackedAt: acknowledged replicated operations by log index (C04).
+	ackedAt map[uint64]*ClientOp
 	c *Cluster
 
 	seq  uint64
@@ -234,6 +236,13 @@ func (r *Recorder) incarnationEnd(inc *Incarnation, kind string) {
 
 func (r *Recorder) startFailed(inc *Incarnation, err error) {
 	r.ev("startfail %s %v", inc.Name(), err)
+	if n := inc.Node; n.FS.ErrFired > 0 && n.FS.OpCount-n.FS.ErrFiredOp <= 3 {
+		// A storage error injected while the node was starting: failing to start is the
+		// repository's (fail-stop) answer, as for a running node. The node is down again.
+		r.probe("start-failed-after-injected-disk-error")
+		n.FS.ErrFired = 0
+		return
+	}
 	cause := classifyStartError(err)
 	if cause == "snapshot-load" {
 		cause = r.tainted(inc.Node, cause, "F3")
@@ -1080,8 +1089,21 @@ func (r *Recorder) logTruncated(inc *Incarnation, index uint64) {
 	} else {
 		r.violate(r.safetyProp("C06"), "truncate-without-conflict", "no-request", "%s truncated its log at %d outside the handling of an AppendEntries request", inc.Name(), index)
 	}
+	var removed []uint64
+	for i := index; i <= m.last().Index; i++ {
+		if _, ok := r.ackedAt[i]; ok {
+			removed = append(removed, i)
+		}
+	}
 	if index > m.first() && index <= m.last().Index {
 		m.Entries = m.Entries[:index-m.first()]
+	}
+	// C04 "never lost": an acknowledged operation stays on the disks of a majority at every
+	// instant, not only at the moment of its acknowledgement (a crash may come at any time).
+	for _, i := range removed {
+		if op := r.ackedAt[i]; op != nil {
+			r.c.checkOnMajorityDisk(op.LogIndex, op.LogTerm, hashBytes(op.Payload), fmt.Sprintf("truncation of %s's log at %d (op%d was acknowledged before)", inc.Name(), index, op.ID))
+		}
 	}
 }
 
